@@ -19,6 +19,7 @@ For each lint `L` (model `L.lint`, the transcription of the Rust visitor; specif
 -/
 import Selene.Lints.ExamplesA
 import Selene.Lints.EscapeProof
+import Selene.Lints.DupKeysComplete
 namespace Selene.Props.C04A
 open Selene.Lua Selene.Lints
 
@@ -175,12 +176,14 @@ theorem duplicate_keys_defect :
     ∃ g ∈ DuplicateKeys.lint (Ex.prog Ex.dupDefect), ∀ n ∈ nodesB (Ex.prog Ex.dupDefect), Doc.duplicateKeys n g = false := by
   decide
 
-/- Full statement (not proved; it needs the converse invariant of `DuplicateKeys.fields_sound`: every
-   earlier canonical key is in `declared`):
-     theorem duplicate_keys_canon (n : Node) (x : Expect) (hx : x ∈ Canon.duplicateKeys n) (s : Stmt)
-       (hn : n ∈ nodesS s) (ctx : BCtx) : ∃ g ∈ DuplicateKeys.lint (ctx.plug s), x.matches g = true
-   Proved instead: the documented example is reported in every context; the general statement is
-   checked on every generated table by the correspondence run (`missed-canonical` clauses). -/
+/-- **duplicate_keys, completeness in every context.** A field whose key — spelled as the documentation
+spells keys: a name, a quoted string without escapes, a plain decimal integer, an array item — was already
+declared by an earlier field of the same table is reported, wherever the table stands
+(`DupKeysComplete.lean`: every earlier canonical key is in `declared`; UTF-8 is injective). -/
+theorem duplicate_keys_canon (n : Node) (x : Expect) (hx : x ∈ Canon.duplicateKeys n) (s : Stmt)
+    (hn : n ∈ nodesS s) (ctx : BCtx) : ∃ g ∈ DuplicateKeys.lint (ctx.plug s), x.matches g = true :=
+  canon_lift DuplicateKeys.hook_canon hx hn ctx
+
 theorem duplicate_keys_canon_partial (ctx : BCtx) :
     ∃ g ∈ DuplicateKeys.lint (ctx.plug Ex.dupCanon), g.primary = ⟨7, 11⟩ ∧ g.secondary = [⟨3, 5⟩] := by
   refine ⟨{ code := "duplicate_keys", primary := ⟨7, 11⟩, msg := DuplicateKeys.message "a", secondary := [⟨3, 5⟩] }, ?_, rfl, rfl⟩
